@@ -345,6 +345,31 @@ Theorem C09_breakdown_prefix (F : rcfType) (g : lz_args F) o nvec init :
           Am *m Qw = Qw *m Tw /\ forall y : 'cV[F]_w, (Qw *m Tw *m Qw^T) *m (Qw *m y) = Am *m (Qw *m y)].
 Proof. exact: lanczos_breakdown_prefix_rcf. Qed.
 
+(* 14b. Per-member independence.  [rq Am v k], [ra Am v k], [rb Am v k] (ProofsPrefix.v, Section Reference) are the Lanczos
+        vectors / alphas / betas of the REFERENCE recurrence for one symmetric matrix Am and one start vector v, on MathComp
+        column vectors: functions of (Am, v) and nothing else.  In every run, for every (start vector, batch member) and every
+        prefix length w <= m whose betas beta_0 .. beta_{w-2} are non-zero, the first w columns of that member's Q and the
+        leading block of its T ARE the reference recurrence of (its matrix, its start vector): they do not depend on the other
+        members of the batch, the other start vectors, the batch shape, the budget, the tolerances, or on which of the others
+        broke down.  (The correspondence compares member-wise on that ground.) *)
+Theorem C09_member_independence (F : rcfType) (g : lz_args F) o nvec init :
+  lanczos_tridiag (ArR F) g = Ok o -> lz_start g = Ok (nvec, init) ->
+  forall idx, (idx < size (o_Q o))%N ->
+    let n := g_n g in let m := o_m o in
+    let c := col_of (prodn (g_batch g)) nvec idx in
+    let Q := nth [::] (o_Q o) idx in let T := nth [::] (o_T o) idx in
+    forall Am : 'M[F]_n,
+    (forall X, cv n (g_mm g X) c = Am *m cv n X c) -> Am^T = Am ->
+    cv n init c != 0 ->
+    forall w, (0 < w <= m)%N ->
+    (forall j, (j.+1 < w)%N -> mget (ArR F) T j j.+1 != 0) ->
+    let v := cv n init c in
+    (forall (x : 'I_n) (j : 'I_w), mx_of n w Q x j = rq Am v j x ord0) /\
+    (forall i j : 'I_w, mx_of w w T i j
+       = (if i.+1 == j :> nat then rb Am v i else 0) + (if i == j :> nat then ra Am v j else 0)
+         + (if i == j.+1 :> nat then rb Am v j else 0)).
+Proof. exact: lanczos_member_independence_rcf. Qed.
+
 (* 15. The Lanczos relation in its classical form: A Q - Q T = beta q e_m^T with beta >= 0 the norm of the last column
        of A Q - Q T and q that column normalised: q is orthogonal to every column of Q and a unit vector unless
        beta = 0; the last column is (I - Q Q^T) A q_m, the part of A q_m outside span Q.  (At an early exit beta and q
